@@ -371,6 +371,10 @@ class WalkUnit(ApiUnit):
                 known = getattr(self, "_pending_known", None) or None
             return orig_check(name, cond, known=known, finding=finding, **kw)
         ctx.check = check
+        if self.prop == "C14":
+            # the error mode is the caller's, per walk: another walk of the same client may use the other one at the same time,
+            # so it must not be remembered on the client either (frame obligation of call_target)
+            kwargs["errors"] = "warn"
         exc = None
         try:
             self.call_target(interp, client, list(oids), **kwargs)
